@@ -64,6 +64,10 @@ pub struct GState {
     pub inner_all: bool,
     /// the gated operation that has passed the writer gate and not yet released the writer lock
     pub writer_holder: Option<usize>,
+    /// every file-system call made by a store call whose description starts with this fails (EIO)
+    pub fault_prefix: Option<String>,
+    /// the first write of such a store call stalls (until `iohook::stall_release`) before it fails
+    pub fault_stall: bool,
 }
 
 thread_local! {
@@ -178,8 +182,17 @@ impl GateKv {
                 st = g.cv.wait(st).unwrap();
             }
             st.ops[id].entered = stamp();
+            if st.fault_prefix.as_ref().map_or(false, |p| st.ops[id].desc.starts_with(p.as_str())) {
+                iohook::fail_all_on_this_thread(Some(libc::EIO));
+                if st.fault_stall {
+                    // ... and the first write takes its time before it fails
+                    iohook::stall_next_write_on_this_thread();
+                }
+            }
         }
         let r = f(&self.inner);
+        iohook::fail_all_on_this_thread(None);
+        iohook::stall_disarm_this_thread();
         INNER_OP.with(|c| *c.borrow_mut() = None);
         {
             let mut st = g.m.lock().unwrap();
@@ -274,6 +287,12 @@ impl Gate {
     }
     pub fn set_inner_gated(&self, on: bool) {
         self.m.lock().unwrap().inner_gated = on;
+    }
+    pub fn set_fault_prefix(&self, p: Option<String>) {
+        self.m.lock().unwrap().fault_prefix = p;
+    }
+    pub fn set_fault_stall(&self, on: bool) {
+        self.m.lock().unwrap().fault_stall = on;
     }
     pub fn set_inner_all(&self, on: bool) {
         let mut st = self.m.lock().unwrap();
@@ -1307,6 +1326,7 @@ pub fn worker(job: &Job) -> Shard {
         "C11" => crate::e5b::c11(job, &mut sh, t0),
         "C15" => crate::e5b::c15(job, &mut sh, t0),
         "C16" => crate::e5b::c16(job, &mut sh, t0),
+        "C20" => crate::e5b::c20_server(job, &mut sh, t0),
         p => panic!("no E5 plan for {}", p),
     }
     rmrf(&job.scratch());
